@@ -147,6 +147,13 @@ func (s *confswarm) drawArgs(w *World) {
 		}
 	case "staticroute":
 		var r []string
+		if t.Draw(4) == 0 {
+			// one route, valid gateway, destination in a spelling that is not plain IPv4: if setup accepts it, the
+			// first request serialises it (seeded change C19-m10 was reached by 2 of 3000 runs without this bias)
+			dst := []string{"::ffff:10.0.0.0/104", "::ffff:10.1.0.0/120", "2001:db8::/32", "::/0", "::ffff:0.0.0.0/96", "10.1.2.3/13"}[t.Pick(6)]
+			s.args = []string{dst + "," + []string{"10.0.0.1", "192.0.2.200", "10.0.0.254"}[t.Pick(3)]}
+			break
+		}
 		for i, k := 0, n(0, 3); i < k; i++ {
 			gw := pick(t, argAddr4)
 			if t.Draw(3) != 0 {
